@@ -39,6 +39,11 @@ func (l localOptimizer) run(method localMethod, gradThresh float64, operation ch
 		l.finish(operation, result)
 		return NotTerminated, nil
 	}
+	if status == GradientThreshold {
+		// The starting location already satisfies the gradient threshold.
+		l.finishMethodDone(operation, result, task)
+		return GradientThreshold, nil
+	}
 	op, err := method.initLocal(task.Location)
 	if err != nil {
 		l.finishMethodDone(operation, result, task)
